@@ -45,8 +45,19 @@ Theorem C20_api_effects_agree :
   (exists rest, gen_fx_jit_compile_no_std = FxRequireProg :: FxTakeExecMem :: rest).
 Proof. exact no_std_effects_agree. Qed.
 
+(** set_jit_exec_memory (every VM kind; exists only without std) stores the caller's memory and does nothing else: run against
+    the API state machine of C10 it leaves program, verifier, helpers, frame sizes and compiled code as they are, so code
+    compiled earlier keeps running, as in the default build where the call does not exist *)
+Theorem C20_exec_memory_setter_is_neutral :
+  gen_fx_set_jit_exec_memory_no_std = [FxSetExecMem] /\
+  forall (prog vf helpers calc : Type) (accepts : vf -> prog -> bool) (hadd : helpers -> Z -> helpers)
+         (compilable : prog -> helpers -> bool) (a : arg prog vf calc) (s : VmApi.ist prog vf helpers calc),
+    fx_call prog vf accepts helpers hadd calc compilable gen_fx_set_jit_exec_memory_no_std a s = (s, VmApi.RUnit).
+Proof. exact exec_memory_setter_is_neutral. Qed.
+
 Print Assumptions C20_jit_memory_size.
 Print Assumptions C20_api_effects_agree.
+Print Assumptions C20_exec_memory_setter_is_neutral.
 Print Assumptions C20_no_std_memory_refusal.
 Print Assumptions C20_no_std_accepts_what_std_allocates.
 Print Assumptions C20_jit_flags_agree.
